@@ -246,6 +246,9 @@ def e2e_cases(ctx, rng, count):
                 opts.append("start=" + loc.strftime("%Y-%m-%dT%H:%M:%S") + f"{'%2B' if off >= 0 else '-'}{abs(off) // 60:02d}:{abs(off) % 60:02d}")
             else:
                 opts.append("start=" + st.strftime("%Y-%m-%dT%H:%M:%SZ"))
+        elif i % 11 == 7:
+            # a very old stream: segment numbers beyond 2^32 (the mfhd sequence number is a 32-bit field)
+            opts.append("start=" + rng.choice(["1000-01-01T00:00:00Z", "0100-06-01T12:00:00Z", "1479-12-31T23:59:59Z"]))
         else:
             opts.append("start=" + start)
         opts.append("depth=" + str(rng.choice([20, 40, 60, 120])))
@@ -319,7 +322,7 @@ def ch_segserve(ctx) -> Channel:
                 _, mod, origin, num = mo.split()
                 mod, origin = int(mod), int(origin)
                 stored = t.stored_tfdt[mod - 1] if t.has_tfdt else sum(t.durs[:mod - 1])
-                pred = (200, stored + origin, int(num))
+                pred = (200, stored + origin, int(num) & 0xFFFFFFFF)   # Model.servedSeq
             else:
                 pred = ("bad", mo)
             got = (f.status, f.tfdt, f.seqnum) if f.status == 200 else (f.status, None)
@@ -352,7 +355,7 @@ def oracle_fetch(t, f):
             return {**base, "kind": "duration-ne-advertised", "last_of_loop": last,
                     "what": f"S@d={f.adv_d} but samples sum to {f.total_duration}"}
     else:
-        if f.seqnum != f.value:
+        if f.seqnum != (f.value & 0xFFFFFFFF):      # a 32-bit field: exact whenever the number fits
             return {**base, "kind": "seqnum-ne-number", "what": f"$Number$={f.value} served with sequence_number={f.seqnum}"}
         tc = (f.value - t.sn) * t.sd
         slack = max(t.durs) // 2 + 1 + max(0, drift)
